@@ -57,3 +57,60 @@ Fixpoint xfirst_diff (i : N) (x y : list xobs) : option N :=
   | a :: r, b :: t => if xobs_eqb a b then xfirst_diff (i + 1) r t else Some i
   | _, _ => Some i
   end.
+
+(** * Accessors whose rendering is a function of the locale (plural and format macros)
+    The harness prints such a rendering as the class of its text; [dec_trace] reads every class back as a locale
+    ([decode]) before the traces are judged as above.  Candidates: for an accessor, what the implementation's own handle of
+    that accessor shows at that step, then the model's value; for mounted effects and frozen observers the model's value. *)
+Record dectab := mk_dectab {
+  d_accs : list (nat * option tbl * option tbl);   (* per accessor pair: its handle, the tables of the first / second accessor *)
+  d_watch : list (option tbl);
+  d_frozen : list (option tbl * option tbl) }.
+
+Fixpoint dec_list {A} (f : A -> list N -> N -> N) (ds : list A) (ms rs : list N) : list N :=
+  match rs with
+  | [] => []
+  | r :: rs' =>
+      match ds with
+      | [] => r :: rs'
+      | d :: ds' => f d (match ms with m :: _ => [m] | [] => [] end) r :: dec_list f ds' (tl ms) rs'
+      end
+  end.
+
+Definition dec_xobs (d : dectab) (sel : bool) (mo io : xobs) : xobs :=
+  let hs := o_handles (fst io) in
+  (mk_obs hs
+     (dec_list (fun (e : nat * option tbl * option tbl) ms r =>
+                  let '(h, ta, tb) := e in
+                  decode (if sel then ta else tb) (match nth_error hs h with Some v => v :: ms | None => ms end) r)
+               (d_accs d) (o_accs (fst mo)) (o_accs (fst io)))
+     (dec_list (fun t ms r => decode t ms r) (d_watch d) (o_watch (fst mo)) (o_watch (fst io)))
+     (o_cookies (fst io)),
+   dec_list (fun (p : option tbl * option tbl) ms r => decode (if sel then fst p else snd p) ms r) (d_frozen d) (snd mo) (snd io)).
+
+Fixpoint dec_trace (d : dectab) (sel : bool) (m i : list xobs) : list xobs :=
+  match i with
+  | [] => []
+  | io :: i' =>
+      match m with
+      | mo :: m' => dec_xobs d sel mo io :: dec_trace d sel m' i'
+      | [] => io :: i'
+      end
+  end.
+
+Record tcase := mk_tcase { t_case : xcase; t_dec : dectab }.
+
+Definition tcheck (tc : tcase) : N :=
+  let c := t_case tc in
+  let a := x_app c in
+  if negb (app_wf a) then 1 else
+  let l0 := init_main true a (x_main c) in
+  let con := mo_enable_cookie (x_main c) in
+  let xops := map (xcook a (x_main c)) (x_ops c) in
+  if negb (forallb xop_wf xops) then 1 else
+  let m := xmodel_trace l0 con xops in
+  let ia := dec_trace (t_dec tc) true m (x_impl_a c) in
+  let ib := dec_trace (t_dec tc) false m (x_impl_b c) in
+  if negb (xspec_C16 l0 con xops ia && xspec_C16 l0 con xops ib) then 3
+  else if negb (xtrace_eqb m ia && xtrace_eqb m ib) then 2
+  else 0.
